@@ -101,12 +101,20 @@ UNITS = {"text": ["text"], "onoff": ["onoff"], "datetime": ["datetime"], "num": 
 STOCK = {"num": "nan", "datetime": "NaT", "onoff": False}
 CUSTOM = {"num": "-1.0", "datetime": "2000-01-01T00:00:00", "onoff": True}
 VTYPE = {"num": "float", "datetime": "datetime", "onoff": "onoff"}
-FIXER_KINDS = ["default", "class", "strict", "lenient", "lenient_class", "custom", "custom_class"]
+FIXER_KINDS = ["default", "class", "strict", "lenient", "lenient_class", "custom", "custom_class",
+               # lenient declared through the PUBLIC interface of a subclass: `stop_on_errors = False` as a class
+               # attribute, or a property override — passed as class and as instance
+               "attr_class", "attr", "prop_class", "prop",
+               # a custom fixer whose fix_missing_rows_in_column_data RETURNS A NEW padded list and leaves the row it
+               # was given untouched (its docstring: "should return the entire row"), class and instance
+               "newrow_class", "newrow"]
 # a custom fixer whose replacements are of a FOREIGN type for the column (the model's FixCfg types replacements as
 # Bool / float token / timestamp token, so this one is judged by the oracle only)
 FOREIGN = {"onoff": None, "datetime": "n/a", "float": "x"}
 MODEL_KIND = {"default": "strict", "class": "strict", "strict": "strict", "lenient": "lenient",
-              "lenient_class": "lenient", "custom": "custom", "custom_class": "custom"}
+              "lenient_class": "lenient", "custom": "custom", "custom_class": "custom",
+              "attr_class": "lenient", "attr": "lenient", "prop_class": "lenient", "prop": "lenient",
+              "newrow_class": "lenient", "newrow": "lenient"}
 
 
 # --------------------------------------------------------------------------- fixers
@@ -135,6 +143,19 @@ def fixer_arg(kind):
             ParseFixer.fix_illegal_cell_value(self, vtype, value)
             return {"onoff": True, "datetime": pd.Timestamp("2000-01-01"), "float": -1.0}.get(vtype, -1.0)
 
+    class AttrCls(Rec):
+        stop_on_errors = False                     # plain class attribute shadowing the property
+
+    class PropCls(Rec):
+        @property
+        def stop_on_errors(self):
+            return False
+
+    class NewRowCls(LenientCls):
+        def fix_missing_rows_in_column_data(self, row, row_data, num_columns):
+            # count and log as the stock fixer does, on a COPY; the caller's list is not touched
+            return ParseFixer.fix_missing_rows_in_column_data(self, row, list(row_data), num_columns)
+
     class ForeignCls(LenientCls):
         def fix_illegal_cell_value(self, vtype, value):
             ParseFixer.fix_illegal_cell_value(self, vtype, value)
@@ -144,6 +165,12 @@ def fixer_arg(kind):
     if kind == "foreign":
         f = ForeignCls()
         return f, lambda: f
+    by_class = {"attr": AttrCls, "prop": PropCls, "newrow": NewRowCls}
+    if kind in by_class:
+        f = by_class[kind]()
+        return f, lambda: f
+    if kind.endswith("_class") and kind[:-6] in by_class:
+        return by_class[kind[:-6]], lambda: _instances[-1] if _instances else None
     if kind == "default":
         return None, lambda: None
     if kind == "class":
@@ -758,7 +785,7 @@ def workbook_case(seed, idx, out, model_ok, ops, pend, tmpdir):
     sheets, a class gives every sheet its own instance), all three output forms"""
     import openpyxl
     rng = make_rng(seed, f"C13x:{idx}")
-    fk = rng.choice(["default", "strict", "lenient", "lenient", "lenient_class", "custom"])
+    fk = rng.choice(["default", "strict", "lenient", "lenient", "lenient_class", "custom", "attr_class", "prop"])
     to = ["pdtable", "jsondata", "cellgrid"][idx % 3]
     tracker = rng.choice(["raising", "collecting"])
     mk = MODEL_KIND[fk]
@@ -1006,7 +1033,7 @@ def foreign_case(seed, idx, out):
 def run(tier, seed, model_ok, translator, search=False):
     out = Outcome()
     out.rule = ("streams of 1-3 well-formed tables (both orientations; text/onoff/datetime/numeric columns; text or "
-                "native cells) x injected defect subsets (illegal cells, duplicate names, short rows) x 7 fixer "
+                "native cells) x injected defect subsets (illegal cells, duplicate names, short rows) x 13 fixer "
                 "configurations x {parse_blocks, read_csv} x {raising, collecting} tracker; each stream compared with "
                 "the Lean model (stream level + every table block alone) and judged by the statement itself. "
                 "Non-trivial: at least one defect injected; distinct by stream content + configuration. Case i is "
